@@ -509,5 +509,7 @@ pub fn run(thorough: bool) -> i32 {
     v110_grid(&mut r, thorough);
     legacy_paths_grid(&mut r);
     treasury_grid(&mut r);
+    r.assumptions.push("deployed bytes: /verif/baselines/staking-stores.json holds byte-exact 1.0.0- and 1.1.0-layout stores written by the pinned tree; after the migration the tree under test must read and operate them like stores it wrote itself".into());
+    crate::store_pin::run_pin(&mut r, "C18");
     r.finish()
 }
